@@ -38,6 +38,7 @@ func init() {
 		"go.h.tuplebroken": goTupleBroken,
 		"go.h.zeroslice":   goZeroSlice,
 		"go.net.gettx":     goNetGetTx,
+		"go.proof":         goProof,
 	}
 	for k, v := range tlbExec {
 		ex[k] = v
@@ -51,6 +52,7 @@ func genC08(g *h.G) {
 	gc.genHelpers()
 	gc.genTLB()
 	gc.genTLBModel()
+	gc.genProofs()
 	for k := range gc.noSeed {
 		g.Count("no_valid_seed:" + k)
 	}
